@@ -41,7 +41,7 @@ def make_doc():
 
 
 def install_validate_stubs(w: World, *, parse_outcome: int, n_parse_warnings: int, builtin: bool, load_outcome: int,
-                           n_errors_first: int, n_errors_after_fix: int, emit_raises: bool, compile_raises: bool, zones: bool):
+                           n_errors_first: int, n_errors_after_fix: int, emit_raises: bool, compile_raises: bool, zones: bool, parse_warnings=None):
     """parse_outcome: 0 ok, 1 LexerError(E005), 2 ParserError, 3 other exception.
     load_outcome: 0 None, 1 definition with fields, 2 definition without fields, 3 raises."""
     from octave_mcp.core.lexer import LexerError
@@ -56,6 +56,8 @@ def install_validate_stubs(w: World, *, parse_outcome: int, n_parse_warnings: in
         if parse_outcome == 3:
             raise RuntimeError("boom")
         w.parsed_doc = make_doc()
+        if parse_warnings is not None:
+            return w.parsed_doc, list(parse_warnings)
         return w.parsed_doc, [{"type": "normalization", "original": "->", "normalized": "→", "line": 1, "column": i + 1} for i in range(n_parse_warnings)]
 
     def get_builtin_schema(name):
